@@ -1200,4 +1200,61 @@ theorem unordered_limit (n m : Nat) (flows : List (List (Nat × β)))
 
 end Unordered
 
+/-! ## The page of an unordered response under duplicated input -/
+
+section Page
+variable {β : Type}
+
+/-- The page of an unordered LIMIT n OFFSET m response, for ANY incoming row sequence (the same
+    event id may arrive any number of times, in any positions): distinct ids, rows that arrived,
+    and exactly `min n (d - m)` of them, `d` = number of distinct ids that arrived. -/
+theorem accept_page (n m : Nat) (rows : List (Nat × β))
+    (dist : List Nat) (hdn : dist.Nodup) (hdist : ∀ i, i ∈ dist ↔ ∃ r ∈ rows, r.1 = i) :
+    let out := acceptRows (some n) (some m) {} (rows.map fun r => ((some r.1 : Option Nat), r.2))
+    (out.map (·.1)).Nodup ∧
+    (∀ r ∈ out, ∃ x ∈ rows, r = (some x.1, x.2)) ∧
+    out.length = min n (dist.length - m) := by
+  intro out
+  let rs : List (Option Nat × β) := rows.map fun r => ((some r.1 : Option Nat), r.2)
+  have hrs : ∀ r ∈ rs, ∃ i, r.1 = some i := by
+    intro r hr
+    obtain ⟨x, _, rfl⟩ := List.mem_map.mp hr
+    exact ⟨x.1, rfl⟩
+  obtain ⟨d1, d2, d3⟩ := dedup_facts rs [] hrs
+  have hout : out = ((dedupById [] rs).drop m).take n := by
+    show acceptRows (some n) (some m) {} rs = _
+    rw [acceptRows_spec]; rfl
+  have hsub : out.Sublist (dedupById [] rs) := by
+    rw [hout]; exact (List.take_sublist _ _).trans (List.drop_sublist _ _)
+  have hDmem : ∀ r ∈ dedupById [] rs, ∃ x ∈ rows, r = (some x.1, x.2) := by
+    intro r hr
+    obtain ⟨x, hx, rfl⟩ := List.mem_map.mp (d2 r hr).1
+    exact ⟨x, hx, rfl⟩
+  refine ⟨d1.sublist (hsub.map _), fun r hr => hDmem r (hsub.subset hr), ?_⟩
+  have hle : ((dedupById [] rs).map (·.1)).length ≤ (dist.map some).length := by
+    apply d1.length_le_of_subset
+    intro o ho
+    obtain ⟨r, hr, rfl⟩ := List.mem_map.mp ho
+    obtain ⟨x, hx, rfl⟩ := hDmem r hr
+    exact List.mem_map.mpr ⟨x.1, (hdist x.1).mpr ⟨x, hx, rfl⟩, rfl⟩
+  have hge : (dist.map some).length ≤ ((dedupById [] rs).map (·.1)).length := by
+    apply (nodup_map_some _ hdn).length_le_of_subset
+    intro o ho
+    obtain ⟨i, hi, rfl⟩ := List.mem_map.mp ho
+    obtain ⟨x, hx, rfl⟩ := (hdist i).mp hi
+    have hxr : ((some x.1 : Option Nat), x.2) ∈ rs := List.mem_map.mpr ⟨x, hx, rfl⟩
+    rcases d3 _ hxr x.1 rfl with h | h
+    · cases h
+    · exact h
+  simp only [List.length_map] at hle hge
+  rw [hout, List.length_take, List.length_drop]
+  omega
+
+/-- Counting OFFSET before dropping duplicates (`skip m` on the raw sequence, then dedup, then
+    `take n`) is a different function: a repeated id is skipped twice and shows up again. -/
+def offsetFirst (n m : Nat) (rows : List (Option Nat × β)) : List (Option Nat × β) :=
+  (dedupById [] (rows.drop m)).take n
+
+end Page
+
 end Snel.Order
